@@ -3,7 +3,7 @@
    property's clauses (a)-(g); (h)/(i) are checked on the serialised text by the harness. *)
 From Coq Require Import List NArith Bool.
 From RPFT Require Import Base.Sexp Base.PyStr Base.Result Gen.Tables Flow.Flow Flow.Closed Flow.NodeIdCheck Flow.NodeIdCheckFacts
-     Flow.RowSem Comp.Compile Comp.CompileClosed Comp.CompileDistinct Comp.CompileExamples Comp.CompileExampleFacts.
+     Flow.RowSem Comp.Compile Comp.CompileClosed Comp.CompileDistinct Comp.CompileExamples Comp.CompileExampleFacts Comp.CompileDoc.
 Import ListNotations.
 
 Theorem C01_closedb_spec : forall G d, closedb G d = true <-> Closed G d.
@@ -118,6 +118,40 @@ Example C01_compile_doc_closed_nonvacuous :
   /\ exists f, compile uuid_fresh ex_name ex_given = Ok f /\ length (f_nodes f) = 3 /\ closedb ex_given_ids [f] = true.
 Proof. exact compile_doc_closed_example. Qed.
 Print Assumptions C01_compile_doc_closed_nonvacuous.
+
+(* SEVERAL FLOWS IN ONE CONTAINER: the FlowParsers of a container draw from one source; with one injective supply shared
+   by them (compile_doc: flow i starts drawing where flow i-1 stopped) the identifiers the compiler invents are pairwise
+   distinct across the WHOLE document and each is one of the container's draws ... *)
+Theorem C01_compile_doc_ids : forall fresh, (forall a b : nat, fresh a = fresh b -> a = b) ->
+  forall G sheets o fs,
+  (forall k, ~ In (fresh k) G) ->
+  (forall name rows cr, In (name, rows) sheets -> In cr rows -> cr_uuid cr <> [] -> In (cr_uuid cr) G) ->
+  compile_checks_node_uuids = true -> compile_doc fresh o sheets = Ok fs ->
+  NoDup (filter (invented G) (doc_def_ids fs))
+  /\ (forall u, In u (filter (invented G) (doc_def_ids fs)) -> exists k, o <= k < doc_end fresh o sheets /\ u = fresh k)
+  /\ (forall f, In f fs -> FlowClosed f).
+Proof. exact compile_doc_ids. Qed.
+Print Assumptions C01_compile_doc_ids.
+
+(* ... hence the document checker (clauses a-g) accepts the container, when the identifiers it draws are v4 uuid strings *)
+Theorem C01_compile_container_closed : forall fresh, (forall a b : nat, fresh a = fresh b -> a = b) ->
+  forall G sheets fs,
+  (forall k, k < doc_end fresh 0 sheets -> is_uuid4 (fresh k) = true) -> (forall k, ~ In (fresh k) G) ->
+  (forall name rows cr, In (name, rows) sheets -> In cr rows -> cr_uuid cr <> [] -> In (cr_uuid cr) G) ->
+  compile_checks_node_uuids = true -> compile_doc fresh 0 sheets = Ok fs -> closedb G fs = true.
+Proof. exact compile_container_closed. Qed.
+Print Assumptions C01_compile_container_closed.
+
+(* satisfiable: three flows (one template compiled twice - the same GIVEN `_nodeId`s in two flows - and a flow with a
+   router), one supply of v4 uuid strings: 50 invented identifiers, all distinct *)
+Example C01_compile_container_closed_nonvacuous :
+  (forall k, k < doc_end uuid_fresh 0 ex_container -> is_uuid4 (uuid_fresh k) = true)
+  /\ (forall k, ~ In (uuid_fresh k) ex_given_ids)
+  /\ (forall name rows cr, In (name, rows) ex_container -> In cr rows -> cr_uuid cr <> [] -> In (cr_uuid cr) ex_given_ids)
+  /\ exists fs, compile_doc uuid_fresh 0 ex_container = Ok fs /\ length fs = 3 /\ closedb ex_given_ids fs = true
+               /\ length (filter (invented ex_given_ids) (doc_def_ids fs)) = 50.
+Proof. exact compile_container_closed_example. Qed.
+Print Assumptions C01_compile_container_closed_nonvacuous.
 
 (* the statement without the validation is false of the faithful model: two router rows with one `_nodeId` *)
 Theorem C01_compile_closed_unvalidated_refuted :
